@@ -279,3 +279,68 @@ def model_compare(vectors):
                 best = e
         out.append(best)
     return out
+
+
+# ---- climatology (C08) --------------------------------------------------------------------------
+
+def period_value(t, period):
+    import datetime as dtm
+    d = dtm.datetime(1970, 1, 1) + dtm.timedelta(seconds=int(t))
+    if period in ("week", "weekofyear"):
+        return d.isocalendar()[1]
+    if period == "month":
+        return d.month
+    if period == "dayofyear":
+        return d.timetuple().tm_yday
+    if period == "dayofweek":
+        return d.weekday()
+    if period == "quarter":
+        return (d.month - 1) // 3 + 1
+    if period == "year":
+        return d.year
+    raise ValueError(period)
+
+
+def clim_matches(m, t, z):
+    """Does member m (dict: tspan, vspan, fspan?, zspan?, period?) apply to time t (epoch s) and depth z?"""
+    lo, hi = sorted(m["tspan"])
+    tv = period_value(t, m["period"]) if m.get("period") else t
+    if not (lo <= tv <= hi):
+        return False
+    if m.get("zspan") is not None:
+        if miss(z):
+            return False
+        zlo, zhi = sorted(m["zspan"])
+        return zlo <= z <= zhi
+    return True
+
+
+def clim_time_matches(m, t):
+    lo, hi = sorted(m["tspan"])
+    tv = period_value(t, m["period"]) if m.get("period") else t
+    return lo <= tv <= hi
+
+
+def model_climatology(members, x, t, z):
+    """Returns (allowed, per-point count of matching members)."""
+    out, counts = [], []
+    for i, v in enumerate(x):
+        zi = z[i] if z is not None else None
+        matching = [m for m in members if clim_matches(m, t[i], zi)]
+        counts.append(len(matching))
+        if miss(v):
+            # C02: MISSING, or UNKNOWN where the test is undefined anyway (no member applies to this point)
+            out.append({M} if matching else {M, U})
+            continue
+        if not matching:
+            out.append({U})
+            continue
+        m = matching[-1]
+        vlo, vhi = sorted(m["vspan"])
+        if m.get("fspan") is not None and (v < min(m["fspan"]) or v > max(m["fspan"])):
+            out.append({F})
+        elif v < vlo or v > vhi:
+            out.append({S})
+        else:
+            out.append({G})
+    return out, counts
